@@ -37,7 +37,7 @@ type c13PM struct {
 
 var c13Configs = []c13PM{{0, 1}, {1, 2}, {7, 200}, {8, 256}, {19, 784931}, {20, 1 << 20}, {31, 1 << 31}, {32, 1 << 32}, {32, 1 << 40}, {19, 1 << 29},
 	// long unary runs: quotients up to several hundred (P tiny against M)
-	{0, 300}, {1, 1 << 10}}
+	{0, 5000}, {1, 1 << 12}}
 
 // c13Alphabet builds, for one (key, M, N), the item alphabet by a deterministic scan over counter
 // strings: three unrelated items, the empty string, the items with the smallest and largest reduced
@@ -146,9 +146,15 @@ func c13Eval(w *mc.W, cas c13Case) {
 		}
 		w.Eval()
 		anyWant := false
-		for _, q := range query {
-			got, err := f.Match(key, q)
+		for qi, q := range query {
 			want := n > 0 && members[ref.GCSValue(key, n, cas.M, q)]
+			if want {
+				anyWant = true
+			}
+			if len(query) > 64 && qi >= 8 && qi < len(query)-8 {
+				continue // Match is O(N): on large queries the real single-item query runs on the first and last 8 items only
+			}
+			got, err := f.Match(key, q)
 			if err != nil {
 				fail("match-returns-error", err.Error())
 			} else if got != want {
@@ -178,7 +184,14 @@ func c13Eval(w *mc.W, cas c13Case) {
 		}
 		// every member matches through every query method (checked once per set: empty query case)
 		if len(query) == 0 {
-			for _, it := range items {
+			sweep := items
+			if len(items) > 64 { // each query is O(N): first 8, last 8 and 16 evenly spaced members
+				sweep = append(append([][]byte{}, items[:8]...), items[len(items)-8:]...)
+				for k := 1; k <= 16; k++ {
+					sweep = append(sweep, items[k*(len(items)-1)/17])
+				}
+			}
+			for _, it := range sweep {
 				if ok, _ := f.Match(key, it); !ok {
 					fail("member-not-matched/Match", fmt.Sprintf("%x", it))
 				}
@@ -303,7 +316,7 @@ func runC13(c *mc.Ctx) {
 		for _, pm := range []c13PM{{19, 784931}, {2, 5}, {32, 1 << 32}, {0, 3}} {
 			sizes := mc.Pick(c, []int{5, 6, 8, 16, 33}, []int{5, 6, 7, 8, 9, 16, 17, 33, 100})
 			if pm.P == 19 { // size ladder (one configuration): counts beyond 8, 10, 15 and 16 bits
-				sizes = append(sizes, mc.Pick(c, []int{257, 1025}, []int{257, 1025, 32769, 65537})...)
+				sizes = append(sizes, mc.Pick(c, []int{257, 1025, 70001}, []int{257, 1025, 32769, 65537, 70001, 140003})...)
 			}
 			for _, n := range sizes {
 				var items [][]byte
